@@ -65,7 +65,7 @@ def check(ctx, run):
         b = f.bodies.get(fn)
         if b is None:
             if 'closure' not in fn:
-                run.violation('R12.1', fn, 'body', 'function not found (anchor lost)')
+                run.undecided('R12.1', fn, 'body', 'function not found (anchor lost)')
             continue
         for bb, t in b.calls():
             nm = callee_name(t)
@@ -107,7 +107,7 @@ def check(ctx, run):
     # ---- R12.2 tree twin: recursion guards
     b = f.bodies.get('functions::contains_value')
     if b is None:
-        run.violation('R12.2', 'functions::contains_value', 'recursion-guards', 'function not found (anchor lost)')
+        run.undecided('R12.2', 'functions::contains_value', 'recursion-guards', 'function not found (anchor lost)')
     else:
         paths, loops = editing.region_paths(b)
         n = 0
@@ -149,7 +149,7 @@ def check(ctx, run):
     # byte twin: candidate filter depends on the entry kind only
     cb = f.bodies.get('functions::contains_jsonb::{closure#0}')
     if cb is None:
-        run.violation('R12.2', 'functions::contains_jsonb', 'candidate-filter', 'filter closure not found (anchor lost)')
+        run.undecided('R12.2', 'functions::contains_jsonb', 'candidate-filter', 'filter closure not found (anchor lost)')
     else:
         ps, _ = explore(cb)
         rets = [p for p in ps if p.end[0] == 'return']
